@@ -129,8 +129,10 @@ def _parse_attribute_block(
         _clear_atom_attribute(CHG, atom_attrs)
         _clear_atom_attribute(RAD, atom_attrs)
     if reset_mass:
-        # ISO lines supersede all isotope values from the atom block.
-        _clear_atom_attribute(MASS, atom_attrs)
+        # ISO lines supersede all isotope values from the atom block's mass
+        # difference field (which is ignored, see _parse_atom_line), but not the
+        # masses denoted by the hydrogen isotope symbols D and T.
+        _clear_atom_attribute(MASS, atom_attrs, keep_hydrogen_isotopes=True)
 
     _merge_atom_attributes_and_additional_attributes(atom_attrs, additional_attrs)
 
@@ -172,8 +174,14 @@ def _validate_atom_index(
         raise MolfileParserException(f'Unknown atom index {index + 1} in line "{line}"')
 
 
-def _clear_atom_attribute(key: str, atom_attrs: dict[int, dict[str, Any]]) -> None:
+def _clear_atom_attribute(
+    key: str,
+    atom_attrs: dict[int, dict[str, Any]],
+    keep_hydrogen_isotopes: bool = False,
+) -> None:
     for atom_attr in atom_attrs.values():
+        if keep_hydrogen_isotopes and atom_attr[ELEMENT_SYMBOL] == "H":
+            continue
         # Remove key from dict, but don't raise KeyError if it doesn't exist.
         atom_attr.pop(key, None)
 
